@@ -591,6 +591,20 @@ def rule_r6(chk, prog):
     # candidate file name: ends with the extension, extension from infile
     t = prog.mod('tmpfiles')
     g = t.func('get_tmp_filename')
+    # the extension: the module global(s) bound to splitext(infile)[1]
+    extn = set()
+    for q_, fn_ in t.funcs.items():
+        gl_ = global_decls(fn_)
+        for st_ in walk_no_nested(fn_):
+            if isinstance(st_, ast.Assign):
+                for tg_ in st_.targets:
+                    v_ = st_.value
+                    if isinstance(tg_, ast.Name) and tg_.id in gl_ and \
+                            isinstance(v_, ast.Subscript) and isinstance(
+                                v_.value, ast.Call) and call_name(
+                                    v_.value) == 'os.path.splitext':
+                        extn.add(tg_.id)
+    extn = extn or {'__FILEEXT'}
     rets = [n for n in walk_no_nested(g) if isinstance(n, ast.Return)]
     ok = False
     why = 'no return'
@@ -605,19 +619,19 @@ def rule_r6(chk, prog):
                         last.func.value, ast.Constant) and isinstance(
                             last.func.value.value, str) and \
                     last.func.value.value.endswith('{}') and last.args and \
-                    unparse(last.args[-1]) == '__FILEEXT':
+                    unparse(last.args[-1]) in extn:
                 ok = True
                 continue
             if isinstance(last, ast.JoinedStr) and last.values and isinstance(
                     last.values[-1], ast.FormattedValue) and isinstance(
                         last.values[-1].value, ast.Name) and \
-                    last.values[-1].value.id == '__FILEEXT' and \
+                    last.values[-1].value.id in extn and \
                     last.values[-1].format_spec is None and \
                     last.values[-1].conversion == -1:
                 ok = True
             elif isinstance(last, ast.BinOp) and isinstance(
                     last.op, ast.Add) and isinstance(
-                        last.right, ast.Name) and last.right.id == '__FILEEXT':
+                        last.right, ast.Name) and last.right.id in extn:
                 ok = True
             else:
                 why = f'last path component "{unparse(last)}" does not end ' \
@@ -633,8 +647,8 @@ def rule_r6(chk, prog):
         for st in walk_no_nested(fn):
             if isinstance(st, ast.Assign):
                 for tg in st.targets:
-                    if isinstance(tg, ast.Name) and tg.id == '__FILEEXT' and \
-                            '__FILEEXT' in gl:
+                    if isinstance(tg, ast.Name) and tg.id in extn and \
+                            tg.id in gl:
                         v = st.value
                         good = (isinstance(v, ast.Subscript) and isinstance(
                             v.value, ast.Call) and call_name(
